@@ -67,7 +67,7 @@ def run(ctx, res):
     res.corr.append(("max difficulty of compute_raire_assertions output vs verified optimum opt (RaireCheck.v), random profiles",
                      cr, R.case_json))
     # the search itself, output for output, against the fuelled model RaireAlgo.raire (exact difficulties)
-    ac = R.algo_cases(ex, rng) + R.algo_cases(rnd, rng)
+    ac = R.algo_cases(rnd, rng)      # (the exhaustive small profiles go through the same comparison in C04)
     cr = R.corr(ctx.pid, "algo", R.IMPORTS, "raire_case * list cand", ac, R.algo_lit, "agree_algo", shard=250, show="show_algo")
     res.corr.append(("compute_raire_assertions assertion list vs RaireAlgo.raire (model of the search)", cr, R.case_json))
     res.evaluations += len(ac)
